@@ -43,17 +43,17 @@ type Result struct {
 
 // Env is how a batch is built.
 type Env struct {
-	Sc        *impl.Scratch
-	FC        string   // path of the fc (or tinyfo) binary
-	FCArgs    []string // arguments before the source file (e.g. pkg_all.foi)
-	Prelude   string   // package clause, imports, shared definitions
-	ExtraGo   map[string]string
+	Sc      *impl.Scratch
+	FC      string   // path of the fc (or tinyfo) binary
+	FCArgs  []string // arguments before the source file (e.g. pkg_all.foi)
+	Prelude string   // package clause, imports, shared definitions
+	ExtraGo map[string]string
 	// GoMainHeader starts client.go (package clause and imports) when programs carry GoMain code;
 	// GoPkgHeader starts each sub-package file (always written).
 	GoMainHeader string
 	GoPkgHeader  map[string]string
-	Builds    *int64 // optional counters
-	NoRunMain bool
+	Builds       *int64 // optional counters
+	NoRunMain    bool
 	// OnGen, if set, receives the emitted gen_t.go of every successful transpiler run.
 	OnGen func(gen string)
 }
